@@ -164,6 +164,14 @@ func runC01(c *run.Ctx) {
 			}
 			if diff := Compare(exp, out, CompareOpts{StripFragSeg: c.Open("K-C06-fragseg")}); diff != "" {
 				c.Violation("c01-"+v.tag, ec.replay(kind, v.name, map[string]interface{}{"diff": diff, "expected": exp.Describe(), "observed": out.Describe()}))
+			} else if i%4 == 1 && v.tag == "valid" {
+				// the same request once more on the same root and the same long-lived data: the first answer must not have
+				// consumed or rewritten anything the resolvers handed out
+				out2 := Do(h, Request{Text: ec.Text, OpName: v.name, Vars: ec.DC.Vars, Entry: i + 1}, nil)
+				c.Count("requests_repeated_on_same_data", 1)
+				if diff := Compare(exp, out2, CompareOpts{StripFragSeg: c.Open("K-C06-fragseg")}); diff != "" {
+					c.Violation("c01-second-run", ec.replay(kind, v.name, map[string]interface{}{"diff": "second run of the same request on the same data: " + diff, "expected": exp.Describe(), "observed": out2.Describe()}))
+				}
 			}
 		}
 	}
